@@ -273,8 +273,8 @@ def install(reg):
 
     def b_vars(p, args, kw):
         h = p.deref(args[0])
-        if isinstance(h, HObj) and getattr(h, "vars_dict", None) is not None:
-            return h.vars_dict
+        if isinstance(h, HObj) and h.ns_dict is not None:
+            return h.ns_dict
         raise Unsupported("vars()")
     E["vars"] = b_vars
 
@@ -617,6 +617,62 @@ def install_configparser(reg):
 
 def install_misc_externals(reg):
     E = reg.externals
+    M = reg.methods
+
+    def mk_hash(algo):
+        def f(p, args, kw):
+            acc = z3.Empty(BYTES)
+            if args:
+                t = p.bytes_term(p.unbox(args[0]))
+                if t is None:
+                    raise Unsupported("hash of non-bytes")
+                acc = t
+            return p.alloc(HHash(algo, acc))
+        return f
+    E["hashlib.sha1"] = mk_hash("sha1")
+    E["hashlib.sha256"] = mk_hash("sha256")
+
+    def h_update(p, recv, args, kw):
+        h = p.heap[recv.rid]
+        t = p.bytes_term(p.unbox(args[0]))
+        if t is None:
+            raise Unsupported("hash update of non-bytes")
+        h.acc = z3.Concat(h.acc, t)
+        return VNone()
+    M[("HHash", "update")] = h_update
+
+    def h_digest(p, recv, args, kw):
+        h = p.heap[recv.rid]
+        p.engine.assumption("SHA-1 / SHA-256 are uninterpreted functions (digest length 20 / 32)")
+        f = p.engine.uf(h.algo, BYTES, BYTES)
+        d = f(h.acc)
+        p.assume(z3.Length(d) == (20 if h.algo == "sha1" else 32))
+        return VBytes(d)
+    M[("HHash", "digest")] = h_digest
+
+    def h_hexdigest(p, recv, args, kw):
+        h = p.heap[recv.rid]
+        f = p.engine.uf(h.algo + "hex", BYTES, S)
+        p.engine.assumption("hexdigest(): uninterpreted (40 / 64 lower-case hex digits of the digest)")
+        return VStr(f(h.acc))
+    M[("HHash", "hexdigest")] = h_hexdigest
+
+    def quote_plus(p, args, kw):
+        p.engine.assumption("urllib.parse.quote_plus: uninterpreted Q with unquote_plus(Q(s)) == s and an output alphabet without "
+                            "'&', '=', '#' (so a standard query parser recovers the value) -- assumed, exercised natively")
+        a = args[0]
+        if isinstance(a, VBox):
+            if not p.pure and not p.entails(PV.is_PStr(a.t)):
+                p.engine.assumption("quote_plus is applied to str values only (well-formed metafile: names and URL lists hold strings)")
+                p.assume(PV.is_PStr(a.t))
+            a = VStr(PV.sval(a.t))
+        return VStr(p.engine.uf("quote_plus", S, S)(a.t))
+    E["urllib.parse.quote_plus"] = quote_plus
+
+    def noop(p, args, kw):
+        return VNone()
+    E["sys.stdout.write"] = noop
+    E["sys.stdout.flush"] = noop
 
     def dt_now(p, args, kw):
         return p.alloc(HObj("datetime", {}))
